@@ -185,6 +185,7 @@ pub struct Client {
 impl Client {
     pub fn new(server: SocketAddr) -> Client {
         let sock = UdpSocket::bind(if server.is_ipv6() { "[::1]:0" } else { "127.0.0.1:0" }).expect("bind client");
+        big_rcvbuf(&sock);
         Client { sock, server, peer: None, sources: vec![] }
     }
     pub fn local_port(&self) -> u16 {
@@ -228,6 +229,18 @@ impl Client {
         };
         let _ = self.sock.set_nonblocking(false);
         r
+    }
+}
+
+/// A burst of large blocks must not be dropped by the kernel at OUR socket (that would be an un-modelled loss).
+pub fn big_rcvbuf(sock: &UdpSocket) {
+    use std::os::unix::io::AsRawFd;
+    let sz: libc::c_int = 16 * 1024 * 1024;
+    unsafe {
+        let p = &sz as *const libc::c_int as *const libc::c_void;
+        if libc::setsockopt(sock.as_raw_fd(), libc::SOL_SOCKET, libc::SO_RCVBUFFORCE, p, 4) != 0 {
+            libc::setsockopt(sock.as_raw_fd(), libc::SOL_SOCKET, libc::SO_RCVBUF, p, 4);
+        }
     }
 }
 
@@ -663,8 +676,10 @@ pub fn upload_faulty(srv: &Srv, name: &[u8], opts: &[(String, String)], payload:
     };
     let mut base: u64 = 1;
     let mut rounds = 0;
+    let mut sent_hi: u64 = 0; // highest block ever sent: a cumulative ACK up to it is valid
     'outer: while base <= nfinal {
         let hi = (base + ws - 1).min(nfinal);
+        sent_hi = sent_hi.max(hi);
         let mut order: Vec<u64> = (base..=hi).collect();
         if mode == 2 {
             order.reverse();
@@ -692,7 +707,7 @@ pub fn upload_faulty(srv: &Srv, name: &[u8], opts: &[(String, String)], payload:
                         // in-window cumulative ACK?
                         let ka = {
                             let mut x = None;
-                            for cand in base..=hi {
+                            for cand in base..=sent_hi {
                                 if (cand % 65536) as u16 == k {
                                     x = Some(cand);
                                 }
